@@ -87,23 +87,33 @@ Proof.
 Qed.
 Print Assumptions c12_notify_later_edge.
 
-(** Where a TickNow request ends up: a tick at this edge or at the next edge is
-    queued — or the tick of this very instant is the last one the guard knows
-    (queued, or ALREADY HANDLED: then the request is dropped; this is the
-    lost-wake-up gap recorded under C09, it is not a C12 clause). *)
+(** Where a TickNow request ends up (TickNow as repaired by fix commit f717b29c):
+    after the call a tick at this clock edge or at the next one is queued — also when
+    the tick of this very instant has already been handled (then the next edge is
+    scheduled: the component still ticks at most once per instant, clause 2). *)
 Theorem c12_tick_now_where : forall f p ops1 s1 evs1, in_range f -> period f = Some p ->
   exec f init (ops1 ++ [Call KTickNow]) = Some (s1, evs1) ->
-  In (least_multiple_ge p (now s1)) (pend s1) \/ In (least_multiple_gt p (now s1)) (pend s1) \/
-  (has s1 = true /\ next s1 = now s1 /\ now s1 mod p = 0).
+  In (least_multiple_ge p (now s1)) (pend s1) \/ In (least_multiple_gt p (now s1)) (pend s1).
 Proof. intros f p ops1 s1 evs1 Hf Hp. exact (tick_now_where f p Hf Hp _ _ _). Qed.
 Print Assumptions c12_tick_now_where.
 
-(** the third alternative does occur with nothing queued (1 GHz, t = 5000 ps) *)
-Theorem c12_tick_now_after_handled_drop_witness :
+(** TickNow in the instant whose tick already ran (1 GHz, t = 5000 ps): the next edge
+    6000 is queued; the instant 5000 is not ticked twice. *)
+Theorem c12_tick_now_after_handled_next_edge_witness :
   exists s evs, exec 1000000000 init [Adv 5000; Call KTickNow; Pop; Ret false; Call KTickNow] = Some (s, evs)
-                /\ pend s = [] /\ pops evs = [5000].
+                /\ pend s = [6000] /\ pops evs = [5000].
 Proof. eexists. eexists. vm_compute. repeat split. Qed.
-Print Assumptions c12_tick_now_after_handled_drop_witness.
+Print Assumptions c12_tick_now_after_handled_next_edge_witness.
+
+(** Regression lemma: TickNow before the fix dropped that request with nothing queued
+    (the lost wake-up recorded under C09, F-C09-1). *)
+Theorem c12_tick_now_old_refuted :
+  exists s evs, exec 1000000000 init [Adv 5000; Call KTickNow; Pop; Ret false] = Some (s, evs) /\
+                pend s = [] /\ now s = 5000 /\
+                tick_now_old 1000000000 s = Some (s, ODrop) /\
+                exists s', tick_now 1000000000 s = Some (s', OSched 6000).
+Proof. eexists. eexists. split; [vm_compute; reflexivity|]. vm_compute. repeat split. eexists. reflexivity. Qed.
+Print Assumptions c12_tick_now_old_refuted.
 
 (** Inside the representable range no call and no Tick() return panics. *)
 Theorem c12_no_panic : forall f p ops s evs o, in_range f -> period f = Some p ->
@@ -124,7 +134,7 @@ Print Assumptions c12_guard_gt_mutation_refuted.
 (** NextTick -> ThisTick in TickLater: after a tick at an edge that made progress
     the re-tick request is dropped by the guard. *)
 Theorem c12_this_tick_mutation_refuted :
-  let s := mk_st true 1000 [] 1000 true in   (* inside Handle of the tick at 1000 ps, 1 GHz *)
+  let s := mk_st true 1000 [] 1000 true (Some 1000) in   (* inside Handle of the tick at 1000 ps, 1 GHz *)
   tick_later_g GGe true 1000000000 s = Some (s, ODrop) /\
   exists s', tick_later 1000000000 s = Some (s', OSched 2000).
 Proof. split; [reflexivity|eexists; reflexivity]. Qed.
@@ -134,7 +144,7 @@ Print Assumptions c12_this_tick_mutation_refuted.
     next edge is "before" the guard's time (1 GHz, last edges before 2^64). *)
 Theorem c12_wrap_stops_ticking_witness :
   let t := 18446744073709551000 in
-  let s := mk_st true t [] t true in
+  let s := mk_st true t [] t true (Some t) in
   tick_later 1000000000 s = Some (s, ODrop) /\ fits 1000000000 s = false.
 Proof. split; reflexivity. Qed.
 Print Assumptions c12_wrap_stops_ticking_witness.
@@ -205,11 +215,12 @@ Proof.
 Qed.
 Print Assumptions c12_on_edge_once_per_instant_all_histories.
 
-(** non-vacuity: a 1 GHz history that runs into the wrap (the last re-tick request is dropped) *)
+(** non-vacuity: a 1 GHz history that runs into the wrap (the last re-tick requests are dropped;
+    a TickNow issued there would wrap NextTick below the engine time and panic in engine.Schedule) *)
 Example c12_all_histories_nonvacuous :
   exists s evs,
     run 1000000000 init [Adv 18446744073709549115; Call KTickLater; Pop; Ret true; Pop; Ret true;
-                         Call KNotifyRecv; Call KTickNow] = Some (s, evs) /\
+                         Call KNotifyRecv] = Some (s, evs) /\
     pops evs = [18446744073709550000; 18446744073709551000] /\ pend s = [] /\
     times64 [Adv 18446744073709549115].
 Proof. do 2 eexists. split; [vm_compute; reflexivity|]. vm_compute. repeat split. Qed.
